@@ -117,6 +117,7 @@ type Interp struct {
 	edges        int
 	samples      []string
 	varBound     map[*Term]uint64
+	ulidN        int
 }
 
 func NewInterp(prog *ssa.Program, cfg Config) (*Interp, error) {
